@@ -1,4 +1,4 @@
--- GENERATED from /repo by /verif/extract (gvx) on every run: do not edit
+-- GENERATED from /work/g10b-repo by /verif/extract (gvx) on every run: do not edit
 namespace GV.Gen.SegCounts
 /-- era ↦ literal `minRawLength` passed to common.ValidateBlockBodyHash in New<Era>BlockFromCbor -/
 def segCount : List (String × Nat) := [("shelley", 4), ("allegra", 4), ("mary", 4), ("alonzo", 5), ("babbage", 5), ("conway", 5)]
